@@ -137,8 +137,15 @@ class Counter:
 
 
 class Unpicklable:
+    """serialising it fails with an ordinary exception; WHICH one must not matter to the
+    worker loop (`except Exception`), so the class rotates deterministically"""
+    kinds = [TypeError, ValueError, RuntimeError, AttributeError, KeyError, ArithmeticError]
+    n = [0]
+
     def __reduce__(self):
-        raise TypeError('scripted: cannot pickle this value')
+        cls = Unpicklable.kinds[Unpicklable.n[0] % len(Unpicklable.kinds)]
+        Unpicklable.n[0] += 1
+        raise cls('scripted: cannot pickle this value')
 
 
 class WState:
